@@ -109,8 +109,9 @@ func runC04(c *ctx) {
 			cfg.cb = 0
 		}
 		w := wireOf(fs)
-		runRD(c, "RD", cfg, fs, "-", c.randChunkSpec(len(w)), "eof", bufSpecs[c.rng.Intn(len(bufSpecs))])
-		runRM(c, "RM", side, fs, "-", c.randChunkSpec(len(w)), "eof")
+		tl := []string{"eof", "eof", "eofdata"}[j%3] // the last bytes may arrive together with io.EOF
+		runRD(c, "RD", cfg, fs, "-", c.randChunkSpec(len(w)), tl, bufSpecs[c.rng.Intn(len(bufSpecs))])
+		runRM(c, "RM", side, fs, "-", c.randChunkSpec(len(w)), tl)
 		runRDD(c, cfg, fs, c.randChunkSpec(len(w)), "eof", bufSpecs[c.rng.Intn(len(bufSpecs))], []string{"d", "dr", "rd", "p", "pr", "drp", "rrd"}[c.rng.Intn(7)])
 		// scripts with Discard at random points and partial reads
 		c.randScript(rcfg{state: side, chk: cfg.chk, cb: 1}, w)
@@ -260,6 +261,7 @@ func runC05(c *ctx) {
 func runC07(c *ctx) {
 	runU8(c, 2000)
 	runU8R(c)
+	runUtf8Discard(c, 40) // a following message starts from a clean validator state
 	nr := 300
 	if c.thor {
 		nr = 5000
@@ -399,6 +401,25 @@ func runC13(c *ctx) {
 			runRD(c, "RD", cfg, fs, "-", chunkSpecs[i%len(chunkSpecs)], "eof", bufSpecs[i%len(bufSpecs)])
 		}
 	})
+	// discarding a message must not hide RSV1 on its later frames
+	for j := 0; j < 60; j++ {
+		side := byte(1 + j%2)
+		first := c.mkFrame(side, false, byte(1+j%2), 3)
+		first.rsv = []byte{4, 0}[j%2]
+		mid := c.mkFrame(side, false, 0, 2)
+		ctl := c.mkFrame(side, true, 9, 1)
+		last := c.mkFrame(side, true, 0, 2)
+		switch j % 3 {
+		case 0:
+			mid.rsv = 4
+		case 1:
+			ctl.rsv = 4
+		case 2:
+			last.rsv = 4
+		}
+		fs := []sframe{first, mid, ctl, last, c.mkFrame(side, true, 2, 1)}
+		runRDD(c, rcfg{state: side | 4, cb: 1, ext: true}, fs, chunkSpecs[j%len(chunkSpecs)], "eof", bufSpecs[j%len(bufSpecs)], []string{"d", "p", "dr"}[j%3])
+	}
 	runC13W(c)
 }
 
